@@ -15,10 +15,12 @@ import (
 	"net"
 	"net/http"
 	"net/url"
+	"regexp"
 	"strings"
 
 	"github.com/saucelabs/forwarder/internal/martian"
 	"github.com/saucelabs/forwarder/internal/vfrt"
+	"github.com/saucelabs/forwarder/ruleset"
 )
 
 //vf:override (*github.com/saucelabs/forwarder.httpProxyMetrics).error = vfStubMetricsError
@@ -291,4 +293,58 @@ func vfH_C05_redirect() {
 		vfrt.Reach("redirect-nomatch")
 	}
 	vfrt.Assert(nw == "tcp" && addr == net.JoinHostPort(wantH, wantP), "redirect/first-matching-rule-wins-empty-means-any-or-unchanged")
+}
+
+//vf:assume C05-directdomains: direct-domains built by the real ruleset code from one of three lists (with case-insensitive and case-sensitive rules, includes and exclusions) x 8 host spellings, with a static upstream configured: the route is DIRECT iff some include rule, taken on its own, matches the host and no exclusion does; C17 decides the matcher in general, this ties it to the route
+
+//vf:harness property=C05 nopanic reach=directdomains-direct,directdomains-upstream steps=6000000
+func vfH_C05_directdomains() {
+	lists := [][]string{
+		{`(?i)\.intranet$`, `^db\.corp$`},
+		{`\.corp$`, `-(?i)^wiki\.corp$`, `-^ci\.corp$`},
+		{`^a\.example$`},
+	}
+	li := vfrt.Choice("list", len(lists))
+	hosts := []string{"db.corp", "DB.CORP", "x.intranet", "X.INTRANET", "wiki.corp", "WIKI.corp", "CI.corp", "a.example"}
+	host := hosts[vfrt.Choice("host", len(hosts))]
+	var items []ruleset.RegexpListItem
+	inc, exc := false, false
+	for _, r := range lists[li] {
+		it, err := ruleset.ParseRegexpListItem(r)
+		vfrt.Assert(err == nil, "directdomains/rule-parses")
+		items = append(items, it)
+		src := r
+		if it.Exclude {
+			src = r[1:]
+		}
+		m := regexp.MustCompile(src).MatchString(host)
+		if it.Exclude {
+			exc = exc || m
+		} else {
+			inc = inc || m
+		}
+	}
+	m, err := ruleset.NewRegexpMatcherFromList(items)
+	vfrt.Assert(err == nil, "directdomains/matcher-built")
+	cfg := HTTPProxyConfig{}
+	cfg.Name = "fw"
+	cfg.ProxyLocalhost = AllowProxyLocalhost
+	cfg.UpstreamProxy, _ = url.Parse("http://up.example:3128")
+	cfg.DirectDomains = m
+	hp := &HTTPProxy{config: cfg, log: vfLog{}, localhost: []string{"localhost"}, transport: &vfRoundTripper{}, metrics: &httpProxyMetrics{}}
+	if !vfrt.Symbolic() {
+		hp.metrics = newHTTPProxyMetrics(nil, "")
+	}
+	vfrt.Assert(hp.configureProxy() == nil, "directdomains/configured")
+	hostport := host + []string{"", ":8443"}[vfrt.Choice("with-port", 2)]
+	req := &http.Request{Method: "GET", Header: http.Header{}, Host: hostport, URL: &url.URL{Scheme: "http", Host: hostport, Path: "/"}}
+	u, perr := hp.proxyFunc(req)
+	vfrt.Assert(perr == nil, "directdomains/route-decided")
+	if inc && !exc {
+		vfrt.Reach("directdomains-direct")
+		vfrt.Assert(u == nil, "directdomains/matching-host-is-contacted-directly")
+	} else {
+		vfrt.Reach("directdomains-upstream")
+		vfrt.Assert(u != nil && u.Host == "up.example:3128", "directdomains/other-hosts-go-to-the-configured-upstream")
+	}
 }
